@@ -337,16 +337,19 @@ func (s *MemoryEventStore) After(_ context.Context, sessionID, streamID string, 
 		if !ok {
 			return nil, fmt.Errorf("MemoryEventStore.After: unknown stream ID %v in session %q", streamID, sessionID)
 		}
-		// Compare before subtracting: (index+1)-dl.first can overflow for
-		// indexes near the ends of the int range.
-		if index < dl.first-1 {
+		// Every index below -1 means "from the beginning", like -1: nothing
+		// lies before the first item.
+		idx := max(index, -1)
+		// Compare before subtracting: (idx+1)-dl.first can overflow for
+		// indexes near the end of the int range.
+		if idx < dl.first-1 {
 			return nil, fmt.Errorf("MemoryEventStore.After: index %d, stream ID %v, session %q: %w",
 				index, streamID, sessionID, ErrEventsPurged)
 		}
-		if index >= dl.first+len(dl.data)-1 {
+		if idx >= dl.first+len(dl.data)-1 {
 			return nil, nil
 		}
-		start := (index + 1) - dl.first
+		start := (idx + 1) - dl.first
 		return slices.Clone(dl.data[start:]), nil
 	}
 
